@@ -49,7 +49,12 @@ def run(c):
         if agg == "quantile":
             return cls(fact, 0.5, weights, ign, r)
         return cls(fact, weights, ign, r)
+    mkcube = ccube if side == "ccube" else xcube
+    plain_first = plain_again = None
+    stale = None
     try:
+        if fact is not None and c["wform"] != "none":
+            plain_first = mkcube(dims, interacting_shape=ish).calculate([getattr(mod, prefix + "sum")(fact, None, ignore, rma)])[0]
         cube = (ccube if side == "ccube" else xcube)(dims, interacting_shape=ish)
         fs = [mk(a) for a in trio]
         together = cube.calculate(fs)
@@ -65,9 +70,27 @@ def run(c):
                 fresh = mk(a)
                 (ccube if side == "ccube" else xcube)(dims_big, interacting_shape=ish).calculate([fresh])
                 other_n.append((a, cube.calculate([fresh])[0]))
+        if plain_first is not None:
+            plain_again = mkcube(dims, interacting_shape=ish).calculate([getattr(mod, prefix + "sum")(fact, None, ignore, rma)])[0]
+        changed = [i for i, (a, b) in enumerate(zip(inputs, before)) if a.tobytes() != b]
+        if side == "ccube" and not any(extras) and dims:
+            from catii import iindex
+            cnt = lambda dd: ccube(dd).calculate([ffuncs.ffunc_count(weights, None, ignore, rma)])[0]
+            cnt(dims)
+            ix = dims[0]
+            if len(ix):
+                top = max(ix.keys())
+                rows = ix[top]
+                del ix[top]
+                ix[(int(c["E"][0]),)] = rows
+                fresh = iindex({k: v.copy() for k, v in ix.items()}, ix.common, ix.shape)
+                stale = not same(cnt(dims), cnt([fresh] + list(dims[1:])))
     except Exception as ex:
         return {"violates": True, "exception": "%s: %s" % (type(ex).__name__, ex)}
-    changed = [i for i, (a, b) in enumerate(zip(inputs, before)) if a.tobytes() != b]
     bad = [a for a, t, s, g, r in zip(trio, together, alone, again, rev) if not (same(t, s) and same(g, s) and same(r, s))]
     bad += [a + " (after another cube)" for a, r in other_n if not same(r, alone[trio.index(a)])]
+    if plain_first is not None and not same(plain_first, plain_again):
+        bad.append("unweighted sum of the same fact object after weighted aggregates")
+    if stale:
+        bad.append("cube over an index edited after an earlier cube saw it")
     return {"violates": bool(changed or bad), "changed_inputs": changed, "unstable": bad}
